@@ -608,6 +608,13 @@ pub fn core_structures(cfg: &CfgSpec) -> Vec<Structure> {
         vec![ps(1, PDenom::Native, PRecv::Staker, AckFailure), ps(2, PDenom::Lst, PRecv::Staker, TimedOut), ps(3, PDenom::Lst, PRecv::N1, AckFailure)],
         true,
     );
+    // S10: three / four refundable transfers toward one receiver in denom patterns that only pairwise checks would accept
+    let pat = |name: &str, ds: &[PDenom]| -> (String, Vec<PacketSpec>) {
+        (name.to_string(), ds.iter().enumerate().map(|(i, d)| ps(i as u64 + 1, d.clone(), PRecv::Staker, if i % 2 == 0 { AckFailure } else { TimedOut })).collect())
+    };
+    for (n, pk) in [pat("denNNL", &[PDenom::Native, PDenom::Native, PDenom::Lst]), pat("denLLN", &[PDenom::Lst, PDenom::Lst, PDenom::Native]), pat("denNNLL", &[PDenom::Native, PDenom::Native, PDenom::Lst, PDenom::Lst]), pat("denNLL", &[PDenom::Native, PDenom::Lst, PDenom::Lst])] {
+        add(&n, vec![bs(St::Received, &[0], 0, 0), bs(St::Pending, &[1], 0, 1)], pk, true);
+    }
     // S9: a single transfer still in flight / a single refundable one (forced recovery of the whole table)
     add("onesent", vec![bs(St::Pending, &[], 0, 1)], vec![ps(9, PDenom::Native, PRecv::Staker, Sent)], true);
     add("onefailed", vec![bs(St::Pending, &[0], 0, 0)], vec![ps(8, PDenom::Native, PRecv::Staker, TimedOut)], true);
@@ -714,6 +721,12 @@ pub fn generated_structures(cfg: &CfgSpec) -> Vec<Structure> {
         for b in kinds.iter().skip(i) {
             v.push(Structure { name: format!("{}/gen-p{k}", cfg.name()), cfg: cfg.clone(), batches: vec![bs(St::Pending, &[0], 0, 0)], packets: vec![ps(3, a.0.clone(), a.1.clone(), a.2.clone()), ps(5, b.0.clone(), b.1.clone(), b.2.clone())], nonempty_pool: true });
             k += 1;
+        }
+    }
+    for len in [3usize, 4] {
+        for code in 0..(1u32 << len) {
+            let pk: Vec<PacketSpec> = (0..len).map(|i| ps(i as u64 + 1, if code >> i & 1 == 0 { PDenom::Native } else { PDenom::Lst }, PRecv::Staker, if i % 2 == 0 { TimedOut } else { AckFailure })).collect();
+            v.push(Structure { name: format!("{}/gen-q{len}-{code}", cfg.name()), cfg: cfg.clone(), batches: vec![bs(St::Pending, &[0], 0, 0)], packets: pk, nonempty_pool: true });
         }
     }
     v
